@@ -16,6 +16,13 @@ Tie to the code (model: coq/theories/Stream.v, theorems: coq/props/C02.v):
                    str(random_seed)+str(additional_seed) without separator; str(additional_key) aliases 1 and '1') is
                    modelled as the code is (kind 2: equal strings, equal draws); its two witnesses are always run,
                    fail the direct oracle and are reported as KNOWN-FINDING.
+  stream `mgr`   : a stand-alone RandomnessManager, set up through its public setup(builder) with a minimal stand-in
+                   builder, driven as a registry state machine (Stream.v mstep / check_mgr): get_randomness_stream for
+                   new and for already registered decision points (both kinds of stream), register_simulants, clock
+                   steps, draws on the registered streams, get_seed.  Oracle: duplicates raise RandomnessError and
+                   only duplicates; every stream carries the decision point as key, the manager's seed string, the
+                   SAME index map object and clock as its siblings; the same streams created in the reverse order
+                   (plus one more) in a second manager give bit-identical draws.
 A quarter of the observed requests go through sample_from_distribution with the identity quantile function (as ppf= and
 as scipy's uniform(0,1)): they must return the very same draws (Stream.v sample_from, C02_sample_from_distribution).  In
 `ctx` worlds of `unrel` builder.randomness.get_seed is compared too (equal for equal decision point/clock/seed, different
@@ -37,7 +44,8 @@ RULE = ("req: generated worlds (SimulationContext or hand-wired RandomnessManage
         "permutation / repeated / non-contiguous / full / empty / unknown labels; noise calls filter/rate/choice/sample on "
         "same and other streams; clock steps; registrations) x additional keys None/int/str/tuple. unrel: pairs of "
         "48-simulant requests with equal seed keys or differing in exactly one component (plus the two alias classes "
-        "of finding F-O). distinct = distinct case JSON; trivial = no observed request with >= 2 labels")
+        "of finding F-O). mgr: stand-alone managers x histories of 4-18 requests (get_randomness_stream incl. duplicates and "
+        "positional streams, register_simulants, clock steps, draws, get_seed). distinct = distinct case JSON; trivial = no observed request with >= 2 labels")
 ASSUMPTIONS = [
     "block: SHA-1 + numpy RandomState.random_sample give, for equal seed strings, equal blocks with entries k/2**53 in "
     "[0,1) whose first p elements do not depend on the sample size (validated on every draw seen: integrality and range)",
@@ -47,12 +55,12 @@ ASSUMPTIONS = [
     "false-alarm probability < 1e-40",
 ]
 TRUSTED = [
-    "harness/props/c02.py reads the private attribute IndexMap._map (the registered label -> position pairs) to describe "
-    "a CRN world to the model, hand-wires a RandomnessManager through its private attributes (_seed, _clock, "
-    "_key_columns, _key_mapping, _get_randomness_stream) for the cheap `mgr` worlds, and calls RandomnessStream._key to "
-    "compare the seed string.  All three are read defensively: if a name is gone the affected cases are skipped and "
-    "counted (tag private_api_changed / seed string taken from the model), not reported as violations.  Everything "
-    "else goes through public interfaces (builder.randomness.get_stream, stream.get_draw/index_map/clock/seed).",
+    "harness/props/c02.py uses public interfaces only: builder.randomness.get_stream / get_seed / register_simulants in a "
+    "SimulationContext, RandomnessManager.setup(builder) with a minimal stand-in builder for the stand-alone manager "
+    "worlds, stream.get_draw / sample_from_distribution / key / seed / clock / index_map, len(index_map) and "
+    "index_map[Index]. The registered positions are found by type (the pandas Series keyed by the simulant index among "
+    "the map object's attributes) with the public lookup as fall-back; the seed string is compared through "
+    "RandomnessStream._key only if that helper exists (getattr).",
 ]
 LEVEL_NOTE = ("PARTIAL - pointwise/subset/permutation/repeat/history invariance, [0,1), distinct positions and the seed-string "
               "theorems are proved for all inputs and histories; 'unrelated draws after changing one component' is checked "
@@ -64,8 +72,12 @@ CLAIM = {
             "at the simulant's own mapped position: hence the same draw in any subset, order, repetition and after any "
             "history of calls and (position-preserving) registrations; draws lie in [0,1); distinct simulants use "
             "distinct positions; changing exactly one of decision point/clock/additional key/seed changes the string "
-            "fed to SHA-1. Each run re-ties the model to /repo/src on ~180 generated worlds x call histories (block read "
-            "off a CRN-free real stream by single-element requests, bit-for-bit comparison) and ~100 request pairs.",
+            "fed to SHA-1. The manager layer is a registry state machine: over all request histories each decision point "
+            "has at most one stream, duplicates are refused without effect, all streams share the seed string and the "
+            "index map, and a stream's draws depend neither on which other streams exist nor on creation order nor on "
+            "later history. Each run re-ties the model to /repo/src on ~180 generated worlds x call histories (block read "
+            "off a CRN-free real stream by single-element requests, bit-for-bit comparison), ~120 manager request histories "
+            "and ~100 request pairs; only public interfaces of /repo/src are used.",
     "note": "PARTIAL - 'unrelated draws after a change' is statistical (SHA-1/MT19937 not modelled; <=2 of 48 "
             "coincidences checked on real streams). Trusted: Coq kernel + vm_compute, hand transcription of "
             "stream.py/index_map.__getitem__/manager seed (sampled tie), python harness, numpy/hashlib. Open finding "
@@ -177,20 +189,51 @@ def make_component(streams, key_cols, births):
     return StreamProbe()
 
 
-class PrivateAPIChanged(Exception):
-    """A private attribute this harness reads to DESCRIBE the world to the model is gone (renamed/refactored): the
-    affected cases are skipped and counted (tag private_api_changed), never reported as a violation."""
+def fake_builder(spec, clock_fn):
+    """What RandomnessManager.setup(builder) asks of a builder (its PUBLIC entry point), and nothing else: the
+    configuration, the clock, and no-op resource / constraint registration."""
+    from types import SimpleNamespace as NS
+    s0, s1 = spec["seed"]
+    conf = NS(randomness=NS(random_seed=s0, additional_seed=s1, key_columns=list(spec["key_cols"]),
+                            map_size=spec["map_size"]),
+              population=NS(population_size=0))
+
+    def accept(*a, **k):
+        return None
+    return NS(configuration=conf, time=NS(clock=lambda: clock_fn), resources=NS(add_resources=accept),
+              lifecycle=NS(add_constraint=accept), randomness=None)
 
 
-def _need(obj, *names):
-    for a in names:
-        if not hasattr(obj, a):
-            raise PrivateAPIChanged(f"{type(obj).__name__}.{a}")
+def read_map(im, labels):
+    """The registered (label, position) pairs of an IndexMap, or None if nothing is registered.
+    1. by type: whatever attribute of the map object is a pandas Series indexed (at some level) by the simulant index -
+       no private NAME is used; 2. otherwise through the public lookup map[Index([label])], one registered label at a
+       time (the harness knows which labels it registered)."""
+    import pandas as pd
+    from vivarium.framework.randomness.exceptions import RandomnessError
+    level = getattr(im, "SIM_INDEX_COLUMN", "simulant_index")
+    for v in list(vars(im).values()):
+        if isinstance(v, pd.Series) and level in (v.index.names or []):
+            labs = [int(x) for x in v.index.get_level_values(level)]
+            return labs, [int(x) for x in v.to_numpy()]
+    labs, poss = [], []
+    for l in labels:
+        try:
+            q = im[pd.Index([l], dtype="int64")]
+        except RandomnessError:
+            return None                     # "IndexMap is empty"
+        except KeyError:
+            continue
+        labs.append(int(l))
+        poss.append(int(q[0]))
+    return (labs, poss) if labs else None
 
 
 class World:
-    """Uniform handle on a real randomness set-up.  Public interfaces where they exist (stream.index_map, stream.clock,
-    stream.seed, len(index_map)); private ones (IndexMap._map, the hand-wired RandomnessManager) through _need."""
+    """Uniform handle on a real randomness set-up, through public interfaces only: builder.randomness.get_stream in a
+    SimulationContext, or RandomnessManager.setup(builder) / get_randomness_stream / register_simulants / get_seed on a
+    stand-alone manager; stream.get_draw / index_map / clock / seed / key; len(index_map); the registered positions are
+    read by type or through the public lookup (read_map)."""
 
     def __init__(self, spec):
         import pandas as pd
@@ -215,20 +258,15 @@ class World:
         else:
             from vivarium.framework.randomness.index_map import IndexMap
             from vivarium.framework.randomness.manager import RandomnessManager
-            self.mgr = RandomnessManager()
-            _need(self.mgr, "_seed", "_clock", "_key_columns", "_key_mapping", "_get_randomness_stream", "register_simulants")
-            s0, s1 = spec["seed"]
-            self.mgr._seed = str(s0) + (str(s1) if s1 is not None else "")     # RandomnessManager.setup lines 41-43
             c0 = spec["clock0"]
-            self._clock = [pd.Timestamp(c0[1]) if c0[0] == "ts" else int(c0[1])]
-            self.mgr._clock = lambda: self._clock[0]
-            self.mgr._key_columns = self.key_cols
-            self.mgr._key_mapping = IndexMap(self.key_cols, spec["map_size"])
-            self.streams = {name: self.mgr._get_randomness_stream(name, crn) for name, crn in spec["streams"]}
+            self.now = [pd.Timestamp(c0[1]) if c0[0] == "ts" else int(c0[1])]
+            self.mgr = RandomnessManager()
+            self.mgr.setup(fake_builder(spec, lambda: self.now[0]))
+            self.streams = {name: self.mgr.get_randomness_stream(name, crn) for name, crn in spec["streams"]}
             self.n = 0
             if spec["pop"] and not spec.get("late_registration"):
                 self.register(spec["pop"])
-            self._pending = spec["pop"] if spec.get("late_registration") else 0
+            self.pending = spec["pop"] if spec.get("late_registration") else 0
 
     @property
     def imap(self):
@@ -250,22 +288,20 @@ class World:
             self.sim.step()
             self.n += self.births               # the probe component creates `births` simulants on every time step
         else:
-            c = self._clock[0]
-            self._clock[0] = c + pd.Timedelta(days=1) if isinstance(c, pd.Timestamp) else c + 1
+            c = self.now[0]
+            self.now[0] = c + pd.Timedelta(days=1) if isinstance(c, pd.Timestamp) else c + 1
 
     def labels(self):
         return list(range(self.n))
 
     def map_assoc(self):
         """The registered (label, position) pairs as a Coq association list, or None (CRN off / nothing registered)."""
-        im = self.imap
         if not self.key_cols:
             return None
-        _need(im, "_map", "SIM_INDEX_COLUMN")
-        if im._map is None:
+        pairs = read_map(self.imap, self.labels())
+        if pairs is None:
             return None
-        labs = [int(x) for x in im._map.index.get_level_values(im.SIM_INDEX_COLUMN)]
-        poss = [int(x) for x in im._map.to_numpy()]
+        labs, poss = pairs
         return assoc_literal(labs, poss), dict(zip(labs, poss))
 
     def map_literal(self):
@@ -390,11 +426,7 @@ def to_int(d):
 
 
 def run_req(case):
-    try:
-        return _run_req(case)
-    except PrivateAPIChanged as e:
-        return Result(ok=True, msg=f"skipped: private attribute {e} not found", coq=None, key=None,
-                      tags=("private_api_changed",))
+    return _run_req(case)
 
 
 def _run_req(case):
@@ -421,7 +453,7 @@ def _run_req(case):
     tags = {f"world_{case['world']}", f"keycols{len(case['key_cols'])}"}
     last = None          # (stream name, idx, addl spec, clock, result ints or None)
     nontrivial = False
-    if case.get("late_registration") and w._pending:
+    if case.get("late_registration") and w.pending:
         pending_at = max(1, len(case["ops"]) // 3)
     else:
         pending_at = None
@@ -513,8 +545,8 @@ def _run_req(case):
 
     for i, o in enumerate(case["ops"]):
         if pending_at is not None and i == pending_at:
-            w.register(w._pending)
-            w._pending = 0
+            w.register(w.pending)
+            w.pending = 0
             if w.map_assoc() is not None:
                 cops.append("CRegister " + w.map_assoc()[0])
         kind = o["op"]
@@ -569,7 +601,7 @@ def _run_req(case):
             pass
         tags.add(f"noise_{kind}")
     tbl = clist(cpair(cz(sid), clist(cpair(cz(p), zb(d)) for p, d in sorted(t.items()))) for sid, t in sorted(table.items()))
-    coq = cpair(lit0, tbl, clist(cops))
+    coq = "(" + cpair(lit0, tbl, clist(cops)) + " : req_case)"      # the cast fixes the type of every [] / None inside
     return Result(ok=ok, msg=msg, coq=coq, key=json.dumps(case, sort_keys=True) if nontrivial else None,
                   obs={"trace": trace[:12]}, tags=tuple(sorted(tags)))
 
@@ -674,12 +706,8 @@ ALIAS_KINDS = ("seedcfg_alias", "addl_alias")
 
 def run_unrel(case):
     a, b = case["a"], case["b"]
-    try:
-        sa = _draw_n(case["world"], a)
-        sb = _draw_n(case["world"], b)
-    except PrivateAPIChanged as e:
-        return Result(ok=True, msg=f"skipped: private attribute {e} not found", coq=None, key=None,
-                      tags=("private_api_changed",))
+    sa = _draw_n(case["world"], a)
+    sb = _draw_n(case["world"], b)
     same = sum(1 for x, y in zip(sa[2], sb[2]) if x == y)
     ok, msg, cls = True, "", None
     vary = case["vary"]
@@ -717,7 +745,7 @@ def run_unrel(case):
     # 2 configured seeds differ but concatenate equally -> equal strings and draws (F-O, modelled as the code is).
     # An additional-key alias (1 vs '1') is invisible at the level of strings: kind 0.
     kind = 0 if vary in ("none", "addl_alias") else 2 if vary == "seedcfg_alias" else 1
-    coq = cpair(cz(kind), side(a, sa), side(b, sb))
+    coq = "(" + cpair(cz(kind), side(a, sa), side(b, sb)) + " : unrel_case)"
     return Result(ok=ok, msg=msg, coq=coq, key=json.dumps(case, sort_keys=True),
                   obs={"seed_strings": [sa[0], sb[0]], "coincide": same, "first": [sa[2][:3], sb[2][:3]], "class": cls},
                   tags=(f"vary_{vary}", f"world_{case['world']}",
@@ -756,6 +784,236 @@ FO_CORPUS = [
 ]
 
 
+# ----------------------------------------------------------------------------------------------------------------
+# stream `mgr`: the manager as a registry state machine (Stream.v mstep / check_mgr)
+# ----------------------------------------------------------------------------------------------------------------
+MGR_NAMES = ["a", "b", "mortality", "x_y_z", "incidence.tb"]
+
+
+def gen_mgr(rng: random.Random):
+    spec = {"world": "mgr", "key_cols": rng.choice(KEY_SCHEMAS), "streams": [], "pop": 0,
+            "map_size": rng.choice([64, 150, 1000, 5000]), "seed": [rng.choice([0, 1, 12, 98765]), rng.choice([None, None, 3, 23])],
+            "clock0": rng.choice([["ts", "2021-03-04"], ["int", 0], ["int", 17]])}
+    ops = [{"op": "get", "dp": rng.choice(MGR_NAMES), "crn": rng.random() < 0.2}]
+    if rng.random() < 0.8:
+        ops.append({"op": "register", "k": rng.randint(1, 6)})
+    nreg = 1
+    for _ in range(rng.choice([2, 4, 6, 9, 14])):
+        r = rng.random()
+        if r < 0.30:
+            ops.append({"op": "get", "dp": rng.choice(MGR_NAMES), "crn": rng.random() < 0.2})
+        elif r < 0.65:
+            ops.append({"op": "draw", "which": rng.getrandbits(8), "idx": [rng.choice(IDX_MODES), rng.getrandbits(30)],
+                        "addl": gen_addl(rng)})
+        elif r < 0.80:
+            ops.append({"op": "get_seed", "dp": rng.choice(MGR_NAMES + ["never_created"])})
+        elif r < 0.90:
+            ops.append({"op": "step"})
+        elif nreg < 4:
+            ops.append({"op": "register", "k": rng.randint(1, 4)})
+            nreg += 1
+    ops.append({"op": "draw", "which": 0, "idx": ["perm", rng.getrandbits(30)], "addl": None})
+    spec["ops"] = ops
+    return spec
+
+
+def shrink_ops(case):
+    """Smaller variants of a history case: drop one operation; fewer initial simulants / births / streams' extras."""
+    import copy
+    ops = case.get("ops", [])
+    for i in range(len(ops)):
+        c = copy.deepcopy(case)
+        del c["ops"][i]
+        yield c
+    for key, smaller in (("pop", lambda v: v // 2), ("births", lambda v: 0), ("late_registration", lambda v: False)):
+        if case.get(key):
+            c = copy.deepcopy(case)
+            c[key] = smaller(case[key])
+            if c[key] != case[key]:
+                yield c
+    for i, o in enumerate(ops):
+        if o.get("addl") is not None:
+            c = copy.deepcopy(case)
+            c["ops"][i]["addl"] = None
+            yield c
+        if o.get("op") == "register" and o.get("k", 1) > 1:
+            c = copy.deepcopy(case)
+            c["ops"][i]["k"] = 1
+            yield c
+
+
+def shrink_unrel(case):
+    import copy
+    if case["a"].get("addl") is not None and case["a"].get("addl") == case["b"].get("addl"):
+        c = copy.deepcopy(case)
+        c["a"]["addl"] = c["b"]["addl"] = None
+        yield c
+    if case["world"] == "ctx" and case["a"]["clock"][0] == "steps" and min(case["a"]["clock"][1], case["b"]["clock"][1]) > 0:
+        c = copy.deepcopy(case)
+        c["a"]["clock"][1] -= 1
+        c["b"]["clock"][1] -= 1
+        yield c
+
+
+def run_mgr(case):
+    import pandas as pd
+    from vivarium.framework.randomness.exceptions import RandomnessError
+    w = World(case)
+    ok, msg = True, ""
+
+    def fail(m):
+        nonlocal ok, msg
+        if ok:
+            ok, msg = False, m
+
+    size = case["map_size"]
+    crn_world = bool(case["key_cols"])
+    lit0 = f"(CRN {cz(size)} None)" if crn_world else f"(NoCRN {cz(size)})"
+    seed_str = _seed_str(case["seed"])
+    dp_ids, created = {}, {}        # name -> id ; name -> (stream, crn)
+    sk_ids, table, mops, trace = {}, {}, [], []
+    steps = 0
+    last_map = [None]
+    tags = {f"keycols{len(case['key_cols'])}"}
+    script = []                     # what a second manager has to replay (registrations and clock steps)
+
+    def dp_id(name):
+        return dp_ids.setdefault(name, len(dp_ids))
+
+    def current_map():
+        if not crn_world or not created:
+            return None
+        im = next(iter(created.values()))[0].index_map
+        pairs = read_map(im, list(range(w.n)))
+        return None if pairs is None else dict(zip(*pairs))
+
+    for o in case["ops"]:
+        kind = o["op"]
+        if kind == "get":
+            name, crn = o["dp"], bool(o["crn"])
+            try:
+                st = w.mgr.get_randomness_stream(name, crn)
+                code = 0
+            except RandomnessError:
+                st, code = None, 1
+            if (code == 1) != (name in created):
+                fail(f"get_randomness_stream({name!r}) {'raised' if code else 'succeeded'} although the decision point "
+                     f"{'was not' if code else 'was'} created before")
+            if code == 0:
+                others = [x[0] for x in created.values()]
+                if st.key != name or str(st.seed) != seed_str or bool(st.initializes_crn_attributes) != crn:
+                    fail(f"stream for {name!r} carries key {st.key!r}, seed {st.seed!r}, crn flag "
+                         f"{st.initializes_crn_attributes!r}; expected {name!r}, {seed_str!r}, {crn}")
+                if any(st.index_map is not x.index_map for x in others) or any(st.clock() != x.clock() for x in others):
+                    fail(f"stream {name!r} does not share the index map / clock of the manager's other streams")
+                created[name] = (st, crn)
+            mops.append(f"MGet {cz(dp_id(name))} {cbool(crn)} {cz(code)} {cstr(st.seed) if code == 0 else '[]'}")
+            trace.append(["get", name, crn, code])
+            tags.add(f"get_code{code}")
+        elif kind == "register":
+            w.register(o["k"])
+            script.append(("register", o["k"]))
+            tags.add("register")          # the shared map is read (through a stream) and passed to the model before the next draw
+        elif kind == "step":
+            w.step()
+            steps += 1
+            script.append(("step",))
+        elif kind == "get_seed":
+            try:
+                v = int(w.mgr.get_seed(o["dp"]))
+            except Exception as e:
+                fail(f"get_seed({o['dp']!r}) raised {type(e).__name__}: {e}")
+                continue
+            mops.append(f"MSeed {cz(dp_id(o['dp']))} {cz(steps)} {zb(v)}")
+            trace.append(["get_seed", o["dp"], steps, v])
+            tags.add("get_seed")
+        elif kind == "draw":
+            if not created:
+                continue
+            name = sorted(created)[o["which"] % len(created)]
+            st, crn = created[name]
+            mp = current_map()
+            if mp and mp != last_map[0]:
+                mops.append("MReg " + assoc_literal(*zip(*sorted(mp.items()))))
+                last_map[0] = dict(mp)
+            idx = resolve_idx(o["idx"], list(range(w.n)), size)
+            addl = addl_of(o["addl"])
+            index = pd.Index(idx, dtype="int64")
+            try:
+                res = st.get_draw(index, addl)
+                code = 0
+            except RandomnessError:
+                res, code = None, 1
+            except Exception:
+                res, code = None, 2
+            ints = []
+            if code == 0:
+                for d in res.tolist():
+                    di, integral = to_int(d)
+                    if not integral or not (0.0 <= d < 1.0):
+                        fail(f"draw {d!r} outside [0,1) or not a multiple of 2**-53")
+                    ints.append(di)
+            if crn:
+                positions = list(range(min(len(idx), size)))
+            else:
+                positions = []
+                for l in idx:
+                    q = l if not crn_world else (mp or {}).get(l)
+                    q = None if q is None else np_wrap(size, q)
+                    if q is not None:
+                        positions.append(q)
+            key = (name, str(st.clock()), str(addl))
+            sid = sk_ids.setdefault(key, len(sk_ids))
+            t = table.setdefault(sid, {})
+            if idx:
+                from vivarium.framework.randomness.index_map import IndexMap
+                from vivarium.framework.randomness.stream import RandomnessStream
+                tw = RandomnessStream(st.key, st.clock, st.seed, IndexMap(size=size))
+                for q in positions:
+                    if q not in t:
+                        t[q] = to_int(tw.get_draw(pd.Index([q], dtype="int64"), addl).iloc[0])[0]
+            if code == 0 and idx and not crn:
+                for l, di in zip(idx, ints):
+                    q = l if not crn_world else (mp or {}).get(l)
+                    q = None if q is None else np_wrap(size, q)
+                    if t.get(q) != di:
+                        fail(f"stream {name!r}: draw of simulant {l} is not the block element at its position {q}")
+            mops.append(f"MCall {cz(dp_id(name))} {cz(sid)} {czlist(idx)} {cpair(cz(code), zblist(ints))}")
+            trace.append(["draw", name, idx, code])
+            tags.add(f"draw_code{code}")
+    # ---- direct oracle: which other streams exist and the order of creation do not matter ----
+    if ok and created:
+        spec2 = dict(case, ops=[])
+        w2 = World(spec2)
+        s2 = {}
+        for name in reversed(list(created)):
+            s2[name] = w2.mgr.get_randomness_stream(name, created[name][1])
+        w2.mgr.get_randomness_stream("an_additional_stream", False)
+        for sc in script:
+            if sc[0] == "register":
+                w2.register(sc[1])
+            else:
+                w2.step()
+        labels = list(range(w.n))
+        if labels:
+            index = pd.Index(labels, dtype="int64")
+            for name, (st, crn) in created.items():
+                try:
+                    d1 = st.get_draw(index, "k").tolist()
+                except Exception:
+                    continue                      # e.g. a positional stream asked for more draws than the block holds
+                d2 = s2[name].get_draw(index, "k").tolist()
+                if d1 != d2:
+                    fail(f"stream {name!r} gives different draws in a manager whose streams were created in the reverse "
+                         f"order (plus one more stream): the draws depend on the other streams")
+    tbl = clist(cpair(cz(sid), clist(cpair(cz(q), zb(d)) for q, d in sorted(t.items()))) for sid, t in sorted(table.items()))
+    cfg = cpair(cstr(case["seed"][0]), copt(case["seed"][1], cstr))
+    coq = "(" + cpair(cfg, lit0, tbl, clist(mops)) + " : mgr_case)"
+    nontrivial = len(created) >= 1 and any(t[0] == "draw" for t in trace)
+    return Result(ok=ok, msg=msg, coq=coq, key=json.dumps(case, sort_keys=True) if nontrivial else None,
+                  obs={"trace": trace[:14]}, tags=tuple(sorted(tags)) + (f"streams{min(len(created), 4)}",))
+
+
 def corpus(stream):
     out = []
     for p in sorted(glob.glob(os.path.join(CORPUS_DIR, "*.json"))):
@@ -768,10 +1026,14 @@ def corpus(stream):
 def streams(tier):
     return [
         Stream(name="req", imports="From Viv Require Import Common Stream.", check="check_req", gen=gen_req, run=run_req,
-               n_quick=180, n_thorough=1200, corpus=lambda: corpus("req"),
+               n_quick=150, n_thorough=1000, corpus=lambda: corpus("req"), shrink=shrink_ops,
                doc="worlds x call histories; block read off a CRN-free real stream by single-element requests"),
+        Stream(name="mgr", imports="From Viv Require Import Common Stream.", check="check_mgr", gen=gen_mgr, run=run_mgr,
+               n_quick=120, n_thorough=800, shrink=shrink_ops,
+               doc="a stand-alone RandomnessManager as a registry state machine: get_randomness_stream (duplicates), "
+                   "register_simulants, clock steps, draws on the registered streams, get_seed"),
         Stream(name="unrel", imports="From Viv Require Import Common Stream.", check="check_unrel", gen=gen_unrel,
-               run=run_unrel, n_quick=100, n_thorough=600, corpus=lambda: list(FO_CORPUS) + corpus("unrel"),
-               finding_of=finding_unrel,
+               run=run_unrel, n_quick=100, n_thorough=500, corpus=lambda: list(FO_CORPUS) + corpus("unrel"),
+               finding_of=finding_unrel, shrink=shrink_unrel,
                doc="equal seed keys -> equal draws; exactly one component changed -> at most 2 of 48 coincide; F-O aliases"),
     ]
